@@ -20,8 +20,8 @@ type c14 struct{ base }
 
 func init() {
 	core.Register(c14{base{id: "C14", level: "exploration", quickB: 16, thoroughB: 32,
-		rule: "tables of 1-12 columns over {bool,int2,int4,int8,float4,float8,text,varchar,bytea,uuid,oid,date,timestamp,timestamptz}, 0-50 rows, NULL density 0-100%, encoded by the harness's own binary COPY encoder (19-byte header, rows, optional trailer); the stream is cut into CopyData messages: one message, every single cut position (exhaustive for streams <= 400 bytes), 1-byte messages, random multi-cuts, cuts inside header / field count / field length / value, empty CopyData messages interleaved; rows returned by the library's row reader must equal the rows sent (value per type, NULL as nil) and end with io.EOF, identically for all splits. Every truncation point of small streams (<= 200 bytes) followed by CopyDone: clean end exactly on row boundaries, error elsewhere. Corruptions (field count +-1, 0, field length beyond the stream, length -2, stream ending mid-row, trailer mid-stream): a non-EOF error (or early EOF for the trailer), rows before it a prefix of the rows sent, no crash (child process). Non-trivial = split inside a row, trailer present, NULLs, or a corruption; distinct = (column types, rows, cut-set class, corruption).",
-		need:        []string{"streams_run", "rows_compared", "split_inside_row", "with_trailer", "single_cut_positions", "corruptions_run", "null_fields", "truncation_points"},
+		rule:        "tables of 1-12 columns over {bool,int2,int4,int8,float4,float8,text,varchar,bytea,uuid,oid,date,timestamp,timestamptz}, 0-50 rows, NULL density 0-100%, encoded by the harness's own binary COPY encoder (19-byte header, rows, optional trailer); the stream is cut into CopyData messages: one message, every single cut position (exhaustive for streams <= 400 bytes), 1-byte messages, random multi-cuts, cuts inside header / field count / field length / value, empty CopyData messages interleaved; rows returned by the library's row reader must equal the rows sent (value per type, NULL as nil) and end with io.EOF, identically for all splits; streams of 3L+ bytes (fields of 5-30 KB) are cut into messages of L, L-1, L-r bytes that arrive while 1-60 bytes of a row are still buffered. Every truncation point of small streams (<= 200 bytes) followed by CopyDone: clean end exactly on row boundaries, error elsewhere. Corruptions (field count +-1, 0, field length beyond the stream, length -2, stream ending mid-row, trailer mid-stream): a non-EOF error (or early EOF for the trailer), rows before it a prefix of the rows sent, no crash (child process). Non-trivial = split inside a row, trailer present, NULLs, or a corruption; distinct = (column types, rows, cut-set class, corruption).",
+		need:        []string{"near_limit_messages", "streams_run", "rows_compared", "split_inside_row", "with_trailer", "single_cut_positions", "corruptions_run", "null_fields", "truncation_points"},
 		assumptions: append([]string{"header flags and extension length are zero (standard header); a field longer than the message limit L is not generated"}, commonAssumptions...)}})
 }
 
@@ -363,6 +363,60 @@ func (ch c14) Run(c *core.Ctx) {
 		}
 		// corruptions
 		ch.corrupt(c, env, t, stream, rowEnds, rng, cs)
+	}
+	// CopyData messages at and just below the message limit L while part of a row is still
+	// buffered from the message before: the split must not matter here either
+	const L = 1 << 16 // hs.Start's MessageBufferSize
+	nbig := 8
+	if c.Tier == "thorough" {
+		nbig = 200
+	}
+	for i := 0; i < nbig; i++ {
+		if !c.Begin(500000+i) || c.NViol() >= 10 {
+			continue
+		}
+		rng := core.NewRng(c.Seed, "C14big", c.Batch, i)
+		t := c14table{Trailer: rng.Bool()}
+		for j := 1 + rng.Intn(3); j > 0; j-- {
+			t.OIDs = append(t.OIDs, core.Pick(rng, []uint32{pg.OIDBytea, pg.OIDBytea, pg.OIDText}))
+		}
+		size := 0
+		for size < 3*L {
+			row := make([]any, len(t.OIDs))
+			for j, o := range t.OIDs {
+				n := 5000 + rng.Intn(25000)
+				size += n
+				if o == pg.OIDBytea {
+					row[j] = rng.Bytes(n)
+				} else {
+					row[j] = strings.Repeat(rng.Ident(10), n/10)
+				}
+			}
+			t.Rows = append(t.Rows, row)
+		}
+		stream, _ := t.encode()
+		s0 := 1 + rng.Intn(60)
+		r := core.Pick(rng, []int{0, 0, 1, 2, s0 - 1, s0, s0 + 1, rng.Intn(64)})
+		if r < 0 {
+			r = 0
+		}
+		cuts := []int{s0, s0 + L - r}
+		for k := cuts[1]; k < len(stream); {
+			k += core.Pick(rng, []int{L, L - 1, L - rng.Intn(40), 1 + rng.Intn(L)})
+			cuts = append(cuts, k)
+		}
+		cs := map[string]any{"oids": t.OIDs, "rows": len(t.Rows), "trailer": t.Trailer, "stream_len": len(stream), "cuts": cuts}
+		what := fmt.Sprintf("messages near the limit (first %d bytes, then L-%d)", s0, r)
+		obs, ok := ch.runStream(c, env, t, stream, cuts, false, cs)
+		if !ok {
+			continue
+		}
+		c.Count("streams_run", 1)
+		c.Count("near_limit_messages", 1)
+		c.Eval(fmt.Sprintf("big %v r%d t%v s0=%d r=%d", t.OIDs, len(t.Rows), t.Trailer, s0, r), true)
+		if ch.checkRows(c, t, obs, len(t.Rows), "eof", what, cs) && obs.Reply != "TGCZZ" {
+			c.Violate("reply", "COPY cycle transcript "+obs.Reply, what+": want TGCZZ", cs)
+		}
 	}
 }
 
